@@ -13,10 +13,20 @@ VARIABLES l
 Ev == Rec[l]
 V(ok, name) == IF ok THEN {} ELSE {name}
 
+\* NAME=value words in front of the command are assignments to sh, not part of the command (NAME: a letter or '_',
+\* then letters, digits, '_'; words are sequences of code points)
+IsNameStart(c) == (c >= 65 /\ c <= 90) \/ (c >= 97 /\ c <= 122) \/ c = 95
+IsNameChar(c) == IsNameStart(c) \/ (c >= 48 /\ c <= 57)
+IsAssign(w) == \E k \in 2..Len(w) : w[k] = 61 /\ IsNameStart(w[1]) /\ \A j \in 1..(k - 1) : IsNameChar(w[j])
+RECURSIVE StripAssign(_)
+StripAssign(ws) == IF ws # <<>> /\ IsAssign(ws[1]) THEN StripAssign(Tail(ws)) ELSE ws
+Cmd(ev, words) == IF "env" \in DOMAIN ev THEN StripAssign(words) ELSE words
+
 TraceInit == l = 1
 TSh ==
   /\ l <= Len(Rec) /\ Ev.e = "shcase" /\ l' = l + 1
-  /\ LET parsed == ShSplit(Ev.out)
+  /\ LET parsed0 == IF "env" \in DOMAIN Ev THEN ShSplitAssign(Ev.out) ELSE ShSplit(Ev.out)
+         parsed == IF parsed0 # Error /\ Len(parsed0) = 1 THEN <<Cmd(Ev, parsed0[1])>> ELSE parsed0
          viol == V(parsed = Ev.stages, "C19_shell_reads_back_the_command")
                  \cup V(Ev.debug_matches, "C19_debug_output_is_the_command_line")
                  \cup V(Ev.asked_sh => Ev.sh_runs = 1 /\ Ev.sh_argv = Ev.stages[1], "C19_real_sh_reads_back_the_command")
